@@ -81,6 +81,9 @@ type Recorder struct {
 	pausedAt map[string]chan struct{} // scripted pauses: point+"|"+id -> release channel
 	pauseHit map[string]chan struct{}
 	pauseMu  sync.Mutex
+
+	proceedArmed int
+	proceedRel   chan struct{}
 }
 
 func NewRecorder() *Recorder {
@@ -135,23 +138,102 @@ func register(c interface{}, r *Recorder) {
 }
 func unregister(c interface{}) {
 	regMu.Lock()
+	r := reg[c]
 	delete(reg, c)
+	for k, v := range rerunners {
+		if v == r {
+			delete(rerunners, k)
+		}
+	}
+	for k, v := range accepting {
+		if v == r {
+			delete(accepting, k)
+		}
+	}
 	regMu.Unlock()
 }
 
 func init() {
 	verifhook.Set(func(point string, args ...interface{}) {
-		if len(args) == 0 || !strings.HasPrefix(point, "conn.") {
+		if len(args) == 0 {
+			return
+		}
+		switch point {
+		case "reactive.rerunner.new":
+			// called inside reactive.NewRerunner, i.e. on the goroutine that has just passed the accept point of
+			// handleSubscribe / handleMutate of some connection: the rerunner belongs to that connection's case
+			regMu.Lock()
+			if r := accepting[goid()]; r != nil {
+				rerunners[args[0]] = r
+			}
+			regMu.Unlock()
+			return
+		case "reactive.run.proceed":
+			// a re-run has finished waiting and is about to take the rerunner's lock
+			regMu.Lock()
+			r := rerunners[args[0]]
+			regMu.Unlock()
+			if r != nil {
+				r.proceed()
+			}
+			return
+		}
+		if !strings.HasPrefix(point, "conn.") {
 			return // observation points of other properties
 		}
 		regMu.Lock()
 		r := reg[args[0]]
+		if r != nil && (point == "conn.handleSubscribe.accept" || point == "conn.handleMutate.accept") {
+			accepting[goid()] = r
+		}
 		regMu.Unlock()
 		if r == nil {
 			return
 		}
 		r.hook(point, args[1:])
 	})
+}
+
+var (
+	accepting = map[int64]*Recorder{}       // goroutine -> case whose connection is accepting a subscription on it
+	rerunners = map[interface{}]*Recorder{} // *reactive.Rerunner -> case
+)
+
+// ArmProceed makes the next n re-runs of this case wait at reactive.run.proceed (after the context check,
+// before the rerunner's lock) until ReleaseProceed, at most 600 ms.
+func (r *Recorder) ArmProceed(n int) {
+	r.pauseMu.Lock()
+	r.proceedArmed = n
+	r.proceedRel = make(chan struct{})
+	r.pauseMu.Unlock()
+}
+
+func (r *Recorder) ReleaseProceed() {
+	r.pauseMu.Lock()
+	if r.proceedRel != nil {
+		close(r.proceedRel)
+		r.proceedRel = nil
+	}
+	r.proceedArmed = 0
+	r.pauseMu.Unlock()
+}
+
+func (r *Recorder) proceed() {
+	r.pauseMu.Lock()
+	var rel chan struct{}
+	if r.proceedArmed > 0 {
+		r.proceedArmed--
+		rel = r.proceedRel
+	}
+	r.pauseMu.Unlock()
+	if rel == nil {
+		return
+	}
+	r.add(Event{Kind: "blocked", Field: "run.proceed"})
+	select {
+	case <-rel:
+	case <-time.After(600 * time.Millisecond):
+	}
 }
 
 func (r *Recorder) hook(point string, args []interface{}) {
